@@ -575,6 +575,23 @@ func (c *Ctx) strLess(a, b string) string {
 }
 
 func (f *Frame) eqTerm(a, b string, t types.Type) string {
+	if _, ok := t.Underlying().(*types.Interface); ok {
+		// comparison with the nil interface: only the dynamic type matters
+		if a == "niliface" {
+			return fmt.Sprintf("(= (ityp %s) 0)", b)
+		}
+		if b == "niliface" {
+			return fmt.Sprintf("(= (ityp %s) 0)", a)
+		}
+	}
+	if _, ok := t.Underlying().(*types.Slice); ok {
+		if a == "nilslice" {
+			return fmt.Sprintf("(= (sbase %s) nil)", b)
+		}
+		if b == "nilslice" {
+			return fmt.Sprintf("(= (sbase %s) nil)", a)
+		}
+	}
 	return Eq(a, b)
 }
 
@@ -622,23 +639,24 @@ func (f *Frame) unop(x *ssa.UnOp, reach string, st *State) {
 	}
 }
 
-// sentinel: package-level error variables assigned exactly once, in the
-// package initializer, are distinct non-nil constants.
+// sentinel: package-level variables assigned exactly once, in their package
+// initializer, whose address is never taken anywhere in the loaded program are
+// immutable. Error-typed ones are distinct non-nil constants; ones initialised
+// with a constant have that constant value.
 func (f *Frame) sentinel(g *ssa.Global) (string, bool) {
+	gi := f.eng.globalInfo(g)
+	if gi == nil || !gi.immutable {
+		return "", false
+	}
 	et := g.Type().Underlying().(*types.Pointer).Elem()
-	if _, ok := et.Underlying().(*types.Interface); !ok {
-		return "", false
-	}
 	name := g.Pkg.Pkg.Path() + "." + g.Name()
-	isS, done := f.eng.sentinelMemo[name]
-	if !done {
-		isS = f.eng.isSentinel(g)
-		f.eng.sentinelMemo[name] = isS
+	if gi.initConst != nil {
+		return f.constTerm(gi.initConst), true
 	}
-	if !isS {
-		return "", false
+	if _, ok := et.Underlying().(*types.Interface); ok && gi.initNonNil {
+		return f.ctx.sentinelTerm(name), true
 	}
-	return f.ctx.sentinelTerm(name), true
+	return "", false
 }
 
 func (c *Ctx) sentinelTerm(name string) string {
@@ -657,60 +675,81 @@ func (c *Ctx) sentinelTerm(name string) string {
 	return n
 }
 
-func (e *Engine) isSentinel(g *ssa.Global) bool {
-	// every store to g must be in the package init function.
-	stores := 0
-	for _, mem := range g.Pkg.Members {
-		fn, ok := mem.(*ssa.Function)
-		if !ok {
-			continue
-		}
-		var fns []*ssa.Function
-		fns = append(fns, fn)
-		for i := 0; i < len(fns); i++ {
-			fns = append(fns, fns[i].AnonFuncs...)
-		}
-		for _, fx := range fns {
-			for _, b := range fx.Blocks {
+type globalInfo struct {
+	immutable  bool
+	initConst  *ssa.Const
+	initNonNil bool
+}
+
+// globalInfo scans the whole loaded program once.
+func (e *Engine) globalInfo(g *ssa.Global) *globalInfo {
+	if e.globals == nil {
+		e.globals = map[*ssa.Global]*globalInfo{}
+		stores := map[*ssa.Global]int{}
+		bad := map[*ssa.Global]bool{}
+		initVal := map[*ssa.Global]ssa.Value{}
+		for _, fn := range e.Prog.Funcs {
+			if fn.Blocks == nil {
+				continue
+			}
+			isInit := fn.Name() == "init" && fn.Parent() == nil
+			for _, b := range fn.Blocks {
 				for _, in := range b.Instrs {
-					if s, ok := in.(*ssa.Store); ok && s.Addr == g {
-						if fx.Name() != "init" {
-							return false
+					switch x := in.(type) {
+					case *ssa.Store:
+						if gg, ok := x.Addr.(*ssa.Global); ok {
+							if !isInit || fn.Pkg != gg.Pkg {
+								bad[gg] = true
+							}
+							stores[gg]++
+							initVal[gg] = x.Val
+							if vg, ok := x.Val.(*ssa.Global); ok {
+								bad[vg] = true // address stored somewhere
+							}
+							continue
 						}
-						stores++
-					}
-					// address escaping: any use of g other than load/store
-					if u, ok := in.(*ssa.UnOp); ok && u.X == g {
-						continue
-					}
-					if s, ok := in.(*ssa.Store); ok && s.Addr == g {
+					case *ssa.UnOp:
+						if _, ok := x.X.(*ssa.Global); ok {
+							continue
+						}
+					case *ssa.DebugRef:
 						continue
 					}
 					for _, op := range in.Operands(nil) {
-						if *op == ssa.Value(g) {
-							if _, isDbg := in.(*ssa.DebugRef); !isDbg {
-								return false
-							}
+						if gg, ok := (*op).(*ssa.Global); ok {
+							bad[gg] = true // address escapes (FieldAddr of global structs etc. also land here)
 						}
 					}
 				}
 			}
 		}
-	}
-	// methods of types in the package
-	for _, fn := range e.Prog.Funcs {
-		if fn.Pkg != g.Pkg || fn.Blocks == nil {
-			continue
-		}
-		for _, b := range fn.Blocks {
-			for _, in := range b.Instrs {
-				if s, ok := in.(*ssa.Store); ok && s.Addr == g && fn.Name() != "init" {
-					return false
+		for gg, n := range stores {
+			gi := &globalInfo{immutable: n == 1 && !bad[gg]}
+			if gi.immutable {
+				switch v := initVal[gg].(type) {
+				case *ssa.Const:
+					gi.initConst = v
+				case *ssa.Call:
+					if callee := v.Common().StaticCallee(); callee != nil {
+						switch FuncName(callee) {
+						case "errors.New", "github.com/pkg/errors.New", "fmt.Errorf", "github.com/pkg/errors.Errorf":
+							gi.initNonNil = true
+						}
+					}
+				case *ssa.Convert:
+					if c, ok := v.X.(*ssa.Const); ok && isString(v.Type()) && isString(c.Type()) {
+						gi.initConst = ssa.NewConst(c.Value, v.Type())
+					}
+				case *ssa.ChangeType:
+					if c, ok := v.X.(*ssa.Const); ok {
+						gi.initConst = ssa.NewConst(c.Value, v.Type())
+					}
 				}
 			}
+			e.globals[gg] = gi
 		}
 	}
-	return stores == 1
+	return e.globals[g]
 }
 
 func (f *Frame) convert(x *ssa.Convert, reach string, st *State) {
